@@ -66,10 +66,12 @@ prop("C18", ["contracts.c18_lss"],
               "queue.Queue is FIFO (pyvc/libmodels.py)"],
      not_decided=["several slaves answering at once; real-time behaviour of the 10 ms / 200 ms sleeps"])
 
-prop("C02", ["contracts.c02_server", "contracts.c06_localnode"], ["OnRequest", "OnRequestFresh", "NodeGetData", "NodeSetData", "NodeSetDataLengths"],
+prop("C02", ["contracts.c02_server", "contracts.c06_localnode"], ["OnRequest", "OnRequestFresh", "NodeGetData", "NodeGetDataAnyCallbacks", "NodeSetData", "NodeSetDataLengths"],
      assumed=["node behind the server (env/sdonode.py): get_data returns the entry's bytes or raises SdoAbortedError, set_data "
               "accepts or raises SdoAbortedError; LocalNode's own get_data/set_data are contracted separately",
-              "Network.send_message does not raise (env/net.py)"],
+              "Network.send_message does not raise (env/net.py)",
+              "A5 read callbacks do not re-enter the node and do not raise; NodeGetDataAnyCallbacks: the callbacks in front of the first "
+              "answering one return None (that is what 'first answering' means), summarised as one foreach-call event"],
      not_decided=["block transfer on the server side (not implemented by the library: refused with 0x05040001)"])
 
 prop("C01", ["contracts.c01_client"], ["WsInit", "WsWriteSegment", "WsWriteExpedited", "WsClose", "RsInit", "RsRead", "ReqResp", "Upload", "Download", "WsWriteProgress", "WsCloseAfterFailure", "WsWriteExpeditedPieces"],
@@ -147,7 +149,7 @@ prop("C03", ["contracts.c01_client", "contracts.c02_server", "contracts.c03_type
              "contracts.c08_eds", "contracts.c10_network"],
      ["RawSet", "RawGet", "SdoGetItem", "CobIds", "OdLookup", "EncodeRaw", "DecodeRaw", "EncodeDecode", "Download", "Upload",
       "WsInit", "WsWriteSegment", "WsWriteExpedited", "WsClose", "RsInit", "RsRead", "ReqResp", "OnRequest", "OnRequestFresh",
-      "NodeGetData", "NodeSetData", "NodeSetDataLengths", "Subscribe", "Notify"],
+      "NodeGetData", "NodeGetDataAnyCallbacks", "NodeSetData", "NodeSetDataLengths", "Subscribe", "Notify"],
      bounded=[("bounded.roundtrip", "typed_roundtrip")],
      assumed=["the chain raw -> encode_raw -> download -> frames -> on_request -> set_data -> data_store -> get_data -> frames -> upload -> "
               "decode_raw is composed from the per-function contracts listed, the four segmented-transfer theorems (client against the "
@@ -161,7 +163,7 @@ prop("C03", ["contracts.c01_client", "contracts.c02_server", "contracts.c03_type
                   "REAL32/64 values and string codecs (CPython); a string ending in NUL does not round-trip because decode strips trailing NULs"])
 
 prop("C06", ["contracts.c01_client", "contracts.c02_server", "contracts.c04_codec", "contracts.c06_localnode"],
-     ["OnRequest", "OnRequestFresh", "NodeGetData", "NodeSetData", "NodeSetDataLengths", "ReqResp", "DecodeWrongLength"],
+     ["OnRequest", "OnRequestFresh", "NodeGetData", "NodeGetDataAnyCallbacks", "NodeSetData", "NodeSetDataLengths", "ReqResp", "DecodeWrongLength"],
      assumed=["node behind the server reduced to get_data / set_data for the server contract (env/sdonode.py); abstract object "
               "dictionary for the node contracts (env/od.py)"],
      not_decided=["'no value' is accepted as either 0x060A0023 (what the pinned test-suite expects) or 0x08000024"])
